@@ -47,6 +47,34 @@ def lit_lang(text):
     return L(re.escape(text)) if text else L('')
 
 
+_lines_cache = {}
+
+
+def line_count_lang(op, k):
+    """language of the strings s with  len(s.splitlines()) <op> k  (op: 'Eq', 'NotEq', 'Lt', 'LtE', 'Gt', 'GtE'); the line
+    boundaries are those of str.splitlines, "\\r\\n" counting once; a trailing boundary does not open another line"""
+    key = (op, k)
+    if key not in _lines_cache:
+        a = alpha()
+        cap = k + 2
+        isb = [len(('a' + c + 'b').splitlines()) > 1 for c in a.syms]
+
+        def step(st, sym):
+            count, cr, cur = st
+            c = a.syms[sym]
+            if c == '\n' and cr:
+                return (count, False, False)
+            if isb[sym]:
+                return (min(count + 1, cap), c == '\r', False)
+            return (count, False, True)
+
+        def acc(st):
+            n = st[0] + (1 if st[2] else 0)
+            return {'Eq': n == k, 'NotEq': n != k, 'Lt': n < k, 'LtE': n <= k, 'Gt': n > k, 'GtE': n >= k}[op]
+        _lines_cache[key] = rx.from_function(a, [], (0, False, False), step, acc)
+    return _lines_cache[key]
+
+
 class Atom:
     def __init__(self, name, lang):
         self.name, self.lang = name, lang
